@@ -422,6 +422,38 @@ def check(col, prog, tier, profile, fixture=None):
                         col.ok("P3" + sfx, b.loc(ev.bb), key, "res[..] = res[..] + value")
                     else:
                         col.violation("P3" + sfx, key, b.loc(ev.bb), "%s overwrites the caller's destination (%s := %s) instead of adding to it" % (b.path, tstr(ev.place), tstr(ev.val)))
+        # ... and stores of a loop body through the items of an iterator over the destination
+        # (`for (out, &c) in res.iter_mut().zip(..) { *out += c; }`)
+        seen_loop_sites = set()
+        for head, sts in list(I.backedge_states.items()) + list(getattr(I, "inl_back_groups", [])):
+            ents = I.loop_entry.get(head, []) if not isinstance(head, tuple) else []
+            for st in sts:
+                evs = st.event_list()
+                li = max([k for k, e in enumerate(evs) if e.kind == "loop"] or [0])
+                nx = [e for e in evs[li:] if e.kind == "call" and e.extra.get("name") == "next" and e.args and e.args[0][0] == "ref" and e.args[0][1][0] == "local"]
+                if not nx or not ents:
+                    continue
+                srcs = [en_.get(nx[-1].args[0][1][1]) for en_ in ents]   # (however the loop is reached)
+                over_res = all(src is not None and any(x[0] == "call" and str(x[1]).rsplit("::", 1)[-1] in ("iter_mut", "into_iter") and any(y == resp for a_ in x[2] for y in [a_] + list(subterms(a_)) if isinstance(a_, tuple)) for x in [src] + list(subterms(src))) for src in srcs)
+                if not over_res:
+                    continue
+                for ev in evs[li:]:
+                    if ev.kind == "call" and ev.extra.get("name") == "add_assign" and ev.args and any(x == nx[-1].res for x in subterms(ev.args[0])) and ev.bb not in seen_loop_sites:
+                        seen_loop_sites.add(ev.bb)
+                        nsites += 1
+                        col.ok("P3" + sfx, b.loc(ev.bb), "%s|loop-add-assign" % fk(b), "*out += value for every item of res.iter_mut()")
+                        continue
+                    if ev.kind != "store" or ev.place[0] != "deref" or not any(x == nx[-1].res for x in subterms(ev.place)) or ev.bb in seen_loop_sites:
+                        continue
+                    seen_loop_sites.add(ev.bb)
+                    nsites += 1
+                    old = I.load(ev.state[1], ev.place)
+                    additive = zones.linearize(ev.val)[0].get(old) == 1
+                    key = "%s|loop-store" % fk(b)
+                    if additive:
+                        col.ok("P3" + sfx, b.loc(ev.bb), key, "*out = *out + value for every item of res.iter_mut()")
+                    else:
+                        col.violation("P3" + sfx, key, b.loc(ev.bb), "%s overwrites the caller's destination (%s := %s) instead of adding to it" % (b.path, tstr(ev.place), tstr(ev.val)))
         # closures that receive the destination elements by &mut
         for cb in util.closures_with_helpers(crate, b, helpers):
             tys = [cb.locals[i]["ty"] for i in range(2, cb.arg_count + 1)]
@@ -553,6 +585,9 @@ def check(col, prog, tier, profile, fixture=None):
                 for side, other in ((t[2], t[3]), (t[3], t[2])):
                     if other == mk_int(0) and side[0] == "bin" and side[1] == "BitAnd" and n in (side[2], side[3]):
                         pow2 = True
+            # assert!(n.is_power_of_two())
+            if f[0] == "eq" and f[2] == 1 and isinstance(t, tuple) and t[0] == "call" and str(t[1]).endswith("usize>::is_power_of_two") and t[2] and t[2][0] == n:
+                pow2 = True
     grow_only = True
     for st in I.all_end_states():
         for e in st.event_list():
@@ -568,7 +603,7 @@ def check(col, prog, tier, profile, fixture=None):
     else:
         col.violation("P4" + sfx, "%s|never-shrinks" % fk(b), b.loc(), "update_n must return early for n <= current size and never shrink the tables (a later larger request would otherwise read truncated tables)")
     if pow2:
-        col.ok("P4" + sfx, b.loc(), "%s|power-of-two" % fk(b), "asserts n & (n-1) == 0")
+        col.ok("P4" + sfx, b.loc(), "%s|power-of-two" % fk(b), "asserts n & (n-1) == 0 (or n.is_power_of_two())")
     else:
         col.violation("P4" + sfx, "%s|power-of-two" % fk(b), b.loc(), "update_n does not assert that n is a power of two")
 
